@@ -49,6 +49,114 @@ def get(modname, *attrs):
         raise LiveError('cannot read %s.%s from the working tree: %r' % (modname, '.'.join(attrs), e))
 
 
+# ----------------------------------------------------------------------------- code skeletons (AST)
+# The effect-order models (Checkpoint/DumpFs/LoadChain) were written from the order in which these functions
+# perform their watched calls.  The skeleton of each function is re-extracted from the working tree on every
+# run and compared, in Lean, with the order the model assumes (DfProps/Skeleton.lean).
+
+SKELETONS = {
+    'streamFunc': ('dataflows.processors.stream', ['stream', 'func'],
+                   {'write', 'close', 'rename', 'res_writer', 'flush', 'unlink', 'remove'}),
+    'fileDumperRows': ('dataflows.processors.dumpers.file_dumper', ['FileDumper', 'rows_processor'],
+                       {'write_row', 'finalize_file', 'tell', 'hash_handler', 'close', 'flush', 'write_file_to_output', 'unlink',
+                        'insert_hash_in_path', 'getsize'}),
+    'fileDumperDescriptor': ('dataflows.processors.dumpers.file_dumper', ['FileDumper', 'handle_datapackage'],
+                             {'dump', 'tell', 'close', 'write_file_to_output', 'unlink', 'handle_datapackage'}),
+    'dumperResources': ('dataflows.processors.dumpers.dumper_base', ['DumperBase', 'process_resources'],
+                        {'initialize', 'process_resource', 'row_counter', 'handle_datapackage', 'finalize'}),
+    'loadResources': ('dataflows.processors.load', ['load', 'process_resources'],
+                      {'process_resources', 'missing_values_extractor', 'caster', 'stripper', 'limiter'}),
+    'pathDumperWrite': ('dataflows.processors.dumpers.to_path', ['PathDumper', 'write_file_to_output'],
+                        {'join', 'exists', 'copy', '__makedirs', 'makedirs', 'copyfile', 'move', 'rename'}),
+    'checkpointChain': ('dataflows.processors.checkpoint', ['checkpoint', '_preprocess_chain'],
+                        {'exists', 'unstream', 'stream', 'chain', 'isfile', '_finalize_pending', 'rename'}),
+}
+
+
+def _find_function(tree, qual):
+    import ast
+    node = tree
+    for name in qual:
+        found = None
+        for child in ast.walk(node):
+            if isinstance(child, (ast.FunctionDef, ast.ClassDef)) and child.name == name and child is not node:
+                found = child
+                break
+        if found is None:
+            return None
+        node = found
+    return node if isinstance(node, ast.FunctionDef) else None
+
+
+def skeleton(modname, qual, watch):
+    """ordered tokens of a function body: watched call names (arguments first), `yield`, `return`, and the compound
+    statements (for / while / try / finally / except / with / if) that contain at least one token"""
+    import ast
+    import inspect
+    mod = get(modname)
+    try:
+        tree = ast.parse(inspect.getsource(mod))
+    except Exception as e:  # noqa
+        raise LiveError('cannot parse %s: %r' % (modname, e))
+    fn = _find_function(tree, qual)
+    if fn is None:
+        raise LiveError('%s.%s not found in the working tree' % (modname, '.'.join(qual)))
+
+    def expr(node, out):
+        if isinstance(node, (ast.FunctionDef, ast.Lambda, ast.ClassDef)):
+            return
+        for child in ast.iter_child_nodes(node):
+            expr(child, out)
+        if isinstance(node, ast.Call):
+            f = node.func
+            name = f.attr if isinstance(f, ast.Attribute) else (f.id if isinstance(f, ast.Name) else None)
+            if name in watch:
+                out.append(name)
+        elif isinstance(node, (ast.Yield, ast.YieldFrom)):
+            out.append('yield')
+
+    def block(stmts, out):
+        for st in stmts:
+            stmt(st, out)
+
+    def wrapped(tag, stmts, out):
+        inner = []
+        block(stmts, inner)
+        if inner:
+            out.extend([tag + '{'] + inner + ['}'])
+
+    def stmt(st, out):
+        if isinstance(st, (ast.FunctionDef, ast.ClassDef)):
+            return
+        if isinstance(st, (ast.For, ast.While)):
+            expr(st.iter if isinstance(st, ast.For) else st.test, out)
+            wrapped('for', st.body, out)
+            wrapped('else', st.orelse, out)
+        elif isinstance(st, ast.If):
+            expr(st.test, out)
+            wrapped('if', st.body, out)
+            wrapped('else', st.orelse, out)
+        elif isinstance(st, ast.Try):
+            wrapped('try', st.body, out)
+            for h in st.handlers:
+                wrapped('except', h.body, out)
+            wrapped('else', st.orelse, out)
+            wrapped('finally', st.finalbody, out)
+        elif isinstance(st, ast.With):
+            for item in st.items:
+                expr(item.context_expr, out)
+            wrapped('with', st.body, out)
+        elif isinstance(st, ast.Return):
+            if st.value is not None:
+                expr(st.value, out)
+            out.append('return')
+        else:
+            expr(st, out)
+    out = []
+    block(fn.body, out)
+    return out
+
+
 def collect():
     p = {}
     p['sampleSize'] = int(get('dataflows.helpers.iterable_loader', 'iterable_storage', 'SAMPLE_SIZE'))
@@ -79,6 +187,8 @@ def collect():
     for name in ('DATE_F_FORMAT', 'DATETIME_F_FORMAT', 'TIME_F_FORMAT', 'DATE_P_FORMAT', 'DATETIME_P_FORMAT',
                  'TIME_P_FORMAT'):
         p[name] = str(get(ej, name))
+    for key, (modname, qual, watch) in SKELETONS.items():
+        p['skel_' + key] = skeleton(modname, qual, watch)
     return p
 
 
@@ -103,6 +213,8 @@ def render(p):
     for name in ('DATE_F_FORMAT', 'DATETIME_F_FORMAT', 'TIME_F_FORMAT', 'DATE_P_FORMAT', 'DATETIME_P_FORMAT',
                  'TIME_P_FORMAT'):
         L.append('def %s : String := %s' % (name.lower().replace('_f_', 'F').replace('_p_', 'P'), lean_str(p[name])))
+    for key in SKELETONS:
+        L.append('def %sSkeleton : List String := %s' % (key, lean_list(lean_str(t) for t in p['skel_' + key])))
     L.append('end Df.Live')
     return '\n'.join(L) + '\n'
 
